@@ -8,6 +8,7 @@ import (
 //   O1: (Rin*1e18 + n*sold) * (Rout - bought) >= Rin*Rout*1e18        (n = 1e18 - fee*1e18)
 //   O2: bought+1 breaks O1 (maximality)
 func VerifC01_InputPrice() {
+	verifExpect("priced")
 	two128 := verifPow2(128)
 	one := big.NewInt(1)
 	e18 := verifPow10(18)
@@ -36,6 +37,7 @@ func VerifC01_InputPrice() {
 
 // C01 O1/O3: exact-output price.  paid = GetOutputPrice(bought, Rin, Rout, fee), bought < Rout
 func VerifC01_OutputPrice() {
+	verifExpect("priced")
 	two128 := verifPow2(128)
 	one := big.NewInt(1)
 	e18 := verifPow10(18)
